@@ -24,6 +24,9 @@ if params == {"list": 1}:
     sys.exit(0)
 t0 = time.time()
 opts = dict(h.opts)
+from sx.runner import load_known  # noqa: E402
+
+opts["known"] = [k for k in load_known(prop) if k.get("status") == "known" and k.get("harness") in (None, hname)]
 if "--prof" in sys.argv:
     import cProfile
     import pstats
